@@ -100,7 +100,7 @@ CB_APIS = {
 
 DEFAULT_WEIGHTS = dict(create=14, iter=5, clone=14, drop=10, conv=14, intoThin=3, cloneArc=6, isUnique=3, getMut=4, getUnique=2,
                        makeMut=4, makeUnique=2, tryUnwrap=2, unwrapOrClone=2, intoInner=1, tryUnique=3, uniqWrite=2,
-                       writeSlot=5, cb=8, cmp=5, malformed=4)
+                       writeSlot=5, cb=8, cmp=5, cloneFrom=4, malformed=4)
 
 
 class Gen:
@@ -240,6 +240,16 @@ class Gen:
                 s = pick(lambda k, t: (k, t) in CLONABLE)
                 if s is not None and free:
                     return "clone %d %d" % (r.choice(free), s)
+                continue
+            if fam == "cloneFrom":
+                def ccls(i):
+                    k, t = slots[i]["kind"], slots[i]["ty"]
+                    if k in ("unionA", "unionB"):
+                        return "union"
+                    return k + "." + t if (k, t) in CLONABLE else None
+                cands = [(i, j) for i in occ for j in occ if i != j and ccls(i) is not None and ccls(i) == ccls(j)]
+                if cands:
+                    return "cloneFrom %d %d" % r.choice(cands)
                 continue
             if fam == "drop":
                 s = pick(lambda k, t: k not in ("raw", "rawThin"))
@@ -484,6 +494,17 @@ def tour():
             for cfg in ([], ["clone 1 0"], ["clone 1 0", "clone 11 10"]):
                 ops = ["cmp 0 10", "cmp 10 0", "cmp 0 0"] + (["cmp 0 1", "cmp 1 10"] if cfg else [])
                 hs.append(["reset"] + mk + var + cfg + ops + ["drop 0", "cmp 10 10"] + (["cmp 1 10"] if cfg else []) + ["dropAll"])
+    # Clone::clone_from between two handles of one type: another allocation (both directions), the same allocation,
+    # the other union variant; with 0..2 co-owners on either side
+    for name in ("arc.sized", "arc.boxed", "arc.sizedB", "arc.slice", "arc.hs", "arc.hwl", "thin.hwl", "thin.iter", "offset.sized",
+                 "unionA.sized", "unionB.sizedB"):
+        mk = MAKERS[name]
+        seconds = [second(name, 1)] + ([second("unionB.sizedB", 1)] if name == "unionA.sized" else []) + ([second("unionA.sized", 1)] if name == "unionB.sizedB" else [])
+        for var in seconds:
+            for cfg in ([], ["clone 1 0"], ["clone 11 10"], ["clone 1 0", "clone 11 10"]):
+                hs.append(["reset"] + mk + var + cfg + ["cloneFrom 0 10", "isUnique 0", "drop 10", "isUnique 0", "dropAll"])
+                hs.append(["reset"] + mk + var + cfg + ["cloneFrom 10 0", "isUnique 10", "drop 0", "isUnique 10", "dropAll"])
+        hs.append(["reset"] + mk + ["clone 1 0", "cloneFrom 1 0", "isUnique 0", "clone 2 0", "cloneFrom 2 1", "drop 0", "dropAll"])
     # with_arc_mut callbacks that swap / replace the lent Arc, then every gate reachable through both ThinArcs
     for act in ("swap:7", "replace:7", "swap:7,panic", "replace:7,panic", "getMut:66,swap:7,getMut:67"):
         for cfg in ([], ["clone 1 0"], ["clone 8 7"], ["clone 1 0", "clone 8 7"]):
@@ -688,6 +709,14 @@ def monitor_history(ops, obs):
                 fails.append((i, ["C04"], "while the comparison's borrow was in use the counts read %s, the owning handles are %s" % (seen, want)))
             if d.get("cons") == "false":
                 fails.append((i, ["C14"], "==, !=, <, <=, >, >=, partial_cmp, cmp and hash are not mutually consistent on s%s, s%s: %s" % (f[1], f[2], o["out"])))
+        # Clone::clone_from(d, s): d now refers to s's allocation, which gained one owner; d's old allocation lost one
+        if f[0] == "cloneFrom" and st == "ok" and len(f) == 3 and f[1].isdigit() and f[2].isdigit() and int(f[1]) in pre and int(f[2]) in pre:
+            dd, ss = int(f[1]), int(f[2])
+            ob, nb = pre[dd]["blk"], pre[ss]["blk"]
+            if dd not in post or post[dd]["blk"] != nb or post[dd]["kind"] != pre[ss]["kind"] or post.get(ss) != dict(pre[ss], cnt=post.get(ss, {}).get("cnt")):
+                fails.append((i, ["C01", "C04", "C12"] if pre[ss]["kind"].startswith("union") else ["C01", "C04"], "clone_from: s%d should now refer to b%d like s%d: %s" % (dd, nb, ss, post.get(dd))))
+            elif ob != nb and (owners(post, nb) != owners(pre, nb) + 1 or owners(post, ob) != owners(pre, ob) - 1):
+                fails.append((i, ["C04"], "clone_from: owners of b%d %d -> %d, of b%d %d -> %d" % (nb, owners(pre, nb), owners(post, nb), ob, owners(pre, ob), owners(post, ob))))
         # per-op property monitors need the source slot before the op
         src = None
         if f[0] in ("isUnique", "getMut", "getUnique", "makeMut", "makeUnique", "tryUnwrap", "unwrapOrClone", "intoInner", "tryUnique",
@@ -996,6 +1025,38 @@ def run_impl_resilient(harness_exe, histories, timeout=600):
     return [o if o is not None else [] for o in out], crashes
 
 
+def lean_monitor(histories, impl_lines, timeout=600):
+    """The monitor written in LEAN (Model/Monitor.lean, exe drv_mon) on the implementation's observation lines.  It is
+    the part of the properties C01 C03 C04 C05 C11 C12 for which `M1.monitor_accepts_model` is proved: on the model's own
+    observations (events in any order) every check passes, for every history — so a FAIL on the implementation's line is a
+    deviation from every behaviour the model has.  returns [(history index, op index, [props], message)]"""
+    try:
+        exe = common.lean_exe("drv_mon")
+    except Exception:
+        return []
+    chunks, index = [], []
+    for hi, ops in enumerate(histories):
+        il = impl_lines[hi] if hi < len(impl_lines) else []
+        chunks.append("reset")
+        index.append(None)
+        for k in range(1, len(ops)):
+            if k >= len(il) or parse_obs(il[k]) is None:
+                break
+            chunks.append("OP " + ops[k])
+            chunks.append("OBS " + cmp_canon(il[k]))
+            index.append((hi, k))
+    lines, rc = run_batch(exe, "\n".join(chunks) + "\n", timeout)
+    if rc != 0 or len(lines) != len(index):
+        return []
+    out = []
+    for ix, l in zip(index, lines):
+        if ix is not None and l.startswith("FAIL "):
+            parts = [x for x in l[5:].split(";") if x]
+            props = sorted({x.split(":", 1)[0] for x in parts if re.match(r"^C\d\d:", x)})
+            out.append((ix[0], ix[1], props or ["C01"], "[Lean monitor, proved sound on the model: M1.monitor_accepts_model] " + l[5:]))
+    return out
+
+
 def run_correspondence(ctx, histories, harness_exe, model_exe=None, label="hist", workers=8):
     from concurrent.futures import ThreadPoolExecutor
     model_exe = model_exe or common.lean_exe("drv_hist")
@@ -1047,6 +1108,9 @@ def run_correspondence(ctx, histories, harness_exe, model_exe=None, label="hist"
             res.disagreements.append(first)
         for (k, props, msg) in monitor_history(ops, iobs):
             res.monitor_fails.append((hi, k, props, msg))
+    lm = lean_monitor(histories, ih)
+    res.lean_monitor_lines = sum(max(0, len(x) - 1) for x in ih)
+    res.monitor_fails.extend(lm)
     res.nontrivial = len(seen_distinct)
     return res
 
@@ -1070,7 +1134,7 @@ def still_bad(harness_exe, model_exe, ops, props=None):
     if irc != 0:
         return True
     iobs = [parse_obs(x) if k > 0 else None for k, x in enumerate(il)]
-    mf = monitor_history(ops, iobs)
+    mf = monitor_history(ops, iobs) + [(k, p, m) for (_, k, p, m) in lean_monitor([ops], [il], timeout=60)]
     if props is not None:
         return any(set(p) & set(props) for _, p, _ in mf)
     return [cmp_canon(x) for x in il] != ml or bool(mf)
